@@ -76,8 +76,23 @@ func buildFile(f int, ds []decl) FileSpec {
 }
 
 // declSeqs enumerates all sequences of at most max distinct menu entries.
+// coreMenu is the conflict-relevant part of the menu, used where the full menu would be too large.
+var coreMenu = map[string]bool{"type-t1-rels": true, "type-t2-rels": true, "extend-t1-fresh": true, "extend-t1-r1": true,
+	"extend-t1-shared": true, "extend-t2-x-r2": true, "cond-c1": true}
+
+var menuFilter func(tag string) bool
+
 func declSeqs(f, max int) [][]decl {
 	menu := declMenu(f)
+	if menuFilter != nil {
+		var m2 []decl
+		for _, d := range menu {
+			if menuFilter(d.tag) {
+				m2 = append(m2, d)
+			}
+		}
+		menu = m2
+	}
 	out := [][]decl{{}}
 	var rec func(cur []decl, used []bool)
 	rec = func(cur []decl, used []bool) {
@@ -169,4 +184,11 @@ func FileSets(nfiles, maxDecl int, withMalformed bool) []FileSet {
 		}
 	}
 	return out
+}
+
+// FileSetsCore is FileSets over the conflict-relevant sub-menu (7 declarations).
+func FileSetsCore(nfiles, maxDecl int) []FileSet {
+	menuFilter = func(tag string) bool { return coreMenu[tag] }
+	defer func() { menuFilter = nil }()
+	return FileSets(nfiles, maxDecl, false)
 }
